@@ -1314,11 +1314,24 @@ impl InstructionHandler for DefaultHandler {
                 captures: none(),
             },
 
+            // A frame's attribute values may be expressions.
+            Instruction::FrameDefinition(FrameDefinition {
+                attributes,
+                identifier: _,
+            }) => read_all(
+                attributes
+                    .values()
+                    .filter_map(|value| match value {
+                        AttributeValue::Expression(expression) => Some(expression),
+                        AttributeValue::String(_) => None,
+                    })
+                    .flat_map(Expression::memory_references),
+            ),
+
             // Instructions that can't contain any memory references.  Conservatively includes
             // `INCLUDE`, which we don't handle here, and `PRAGMA`, which we can't.
             Instruction::Declaration(_)
             | Instruction::Fence(_)
-            | Instruction::FrameDefinition(_)
             | Instruction::Halt()
             | Instruction::Wait()
             | Instruction::Include(_)
